@@ -47,7 +47,7 @@ def rmDescr (t : Tables) (h : Handle) : Tables :=
   | none => t
   | some d => { t with descrs := t.descrs.filter (fun x => x.handle != h), dSaved := savedSet t.dSaved h d.ver }
 
-inductive Err | valueError | keyError | apiUsage | attributeError
+inductive Err | valueError | keyError | apiUsage | attributeError | notImplemented
 deriving DecidableEq, Repr
 
 /-- `add_object_no_lock`: unique index on the key; a duplicate raises KeyError and leaves the table as it was -/
